@@ -249,7 +249,52 @@ def run_case(ctx, pair, d, model, queries, ty, cfg, grid, count=True):
                 corr.append(("vocabulary strings are not at the offset / in the id order the layout model predicts",
                              {"offset": so, "disk": data[so:so + 40].hex(), "expected": blob[:40].hex()}))
     info["files"] = sh
+    if is_trie and enum_ref and count:
+        corr += trielm_stream(ctx, pair, model, ty, cfg, files["m1"], enum_ref, stored)
     return bad, corr, info
+
+
+def trielm_stream(ctx, pair, model, ty, cfg, path, enum_ref, stored):
+    """File bytes -> Lean TrieLM (offsets from the layout model) -> raw lookups along the chain of child ranges, compared
+    with the real TrieSearch::LookupUnigram/LookupMiddle/LookupLongest on the loaded file."""
+    mult, pb, bb, ab = cfg
+    with open(path, "rb") as f:
+        data = f.read()
+    if len(data) > 200000:
+        return []
+    rng = ctx.rng
+    ids = {}
+    for pr in enum_ref.split()[1:]:
+        i, hx = pr.split("=", 1)
+        ids[bytes.fromhex(hx).decode("utf-8", "replace")] = int(i)
+    qs = []
+    for k, ents in model["entries"].items():
+        for g, _ in ents:
+            q = [ids.get(w, 0) for w in g][::-1]
+            qs.append(q)
+            if rng.random() < 0.3:                       # a neighbour that is usually absent
+                qs.append(q[:-1] + [rng.randrange(0, len(ids))])
+    rng.shuffle(qs)
+    qs = qs[:250]
+    for _ in range(30):
+        qs.append([rng.randrange(0, len(ids)) for _ in range(rng.randrange(1, model["order"] + 1))])
+    hops = ["load T %d %s %d 0" % (ty, path, rng.randrange(4))] + ["trieq T " + " ".join(map(str, q)) for q in qs]
+    dops = ["trieload %d %d %d %d %d %s %s" % (ty, mult, pb, bb, ab, " ".join(map(str, stored)), data.hex())] + \
+           ["trieq " + " ".join(map(str, q)) for q in qs]
+    rc1, o1, e1 = pair.harness(hops)
+    rc2, o2, e2 = pair.driver(dops)
+    out = []
+    if rc1 != 0 or rc2 != 0 or len(o1) != len(hops) or len(o2) != len(dops):
+        return [("trielm stream could not run", {"rc": [rc1, rc2], "stderr": (e1 + e2)[-1500:]})]
+    for q, a, b in zip(qs, o1[1:], o2[1:]):
+        nf = a.endswith("nf")
+        ctx.count(("trielm", ty, tuple(q), a), nontrivial=len(q) >= 2)
+        ctx.hist("trielm.result", ("absent" if nf else "found") + str(len(q)))
+        if a != b:
+            out.append(("TrieLM lookup on the file's bytes differs from the real TrieSearch lookup",
+                        {"ngram_reversed_ids": q, "impl": a, "model": b}))
+            break
+    return out
 
 
 def full_grid():
